@@ -300,7 +300,7 @@ def run_job_once(job, tier, verbose=False, keep=None):
                 if pat in t:
                     raise MachineryError("%s: %s" % (why, t[:200]))
             m = re.search(r"no body for (?:function|callee) (\S+)", t)
-            if m and m.group(1).strip("'") not in job["nobody_ok"]:
+            if m and job["nobody_ok"] is not True and m.group(1).strip("'") not in job["nobody_ok"]:
                 raise MachineryError("function without body and without contract: %s (add a contract or list it in nobody_ok)" % m.group(1))
         seen_loop_step = False
         # CBMC reports properties that lie behind a failed *fatal* property (e.g. a failed dereference check) as UNKNOWN:
